@@ -1,0 +1,138 @@
+//go:build verif
+
+// Export shims for the verification harness (property C07: a WAL record cut short is
+// recognised as incomplete). Additive only; compiled only with `-tags verif`.
+
+package engine
+
+import (
+	"context"
+	"errors"
+	"os"
+	"path/filepath"
+	"strings"
+	"sync"
+
+	"github.com/openGemini/openGemini/lib/util/lifted/vm/protoparser/influx"
+)
+
+// VerifWalWritten describes where one written record ended.
+type VerifWalWritten struct {
+	File string // wal file that received the record
+	End  int64  // size of that file after the record was written
+}
+
+// VerifWalWrite writes the batches, in order, through the real WAL writer
+// (NewWAL → WAL.Write → LogWriter.Write) into dir and closes the WAL.
+func VerifWalWrite(dir string, partitionNum int, batches [][]byte, typ WalRecordType) ([]VerifWalWritten, error) {
+	lock := ""
+	w := NewWAL(dir, &lock, 1, 0, true, false, partitionNum, 0)
+	out := make([]VerifWalWritten, 0, len(batches))
+	for _, b := range batches {
+		pt := int(w.writeReq % uint64(partitionNum))
+		if err := w.Write(b, typ, 0); err != nil {
+			_ = w.Close()
+			return nil, err
+		}
+		lw := &w.logWriter[pt]
+		if len(lw.fileNames) == 0 {
+			_ = w.Close()
+			return nil, errors.New("verif: wal writer has no file after a write")
+		}
+		name := lw.fileNames[len(lw.fileNames)-1]
+		st, err := os.Stat(name)
+		if err != nil {
+			_ = w.Close()
+			return nil, err
+		}
+		out = append(out, VerifWalWritten{File: name, End: st.Size()})
+	}
+	return out, w.Close()
+}
+
+// VerifWalReplayResult is what a replay handed to the shard, in delivery order.
+type VerifWalReplayResult struct {
+	Rows      []influx.Row // deep copies of every row delivered by line-protocol records
+	Batches   []int        // number of rows of each delivered line-protocol record
+	Binaries  [][]byte     // payloads of delivered arrow-flight records
+	LastMarks int          // "last rows" markers delivered (end of the last file)
+	Files     []string     // wal files the replay reports as consumed
+}
+
+func verifCloneRow(r *influx.Row) influx.Row {
+	var c influx.Row
+	c.Name = strings.Clone(r.Name)
+	c.Timestamp = r.Timestamp
+	c.StreamOnly = r.StreamOnly
+	c.ShardKey = append([]byte(nil), r.ShardKey...)
+	c.IndexKey = append([]byte(nil), r.IndexKey...)
+	c.Tags = make(influx.PointTags, len(r.Tags))
+	for i := range r.Tags {
+		c.Tags[i] = influx.Tag{Key: strings.Clone(r.Tags[i].Key), Value: strings.Clone(r.Tags[i].Value), IsArray: r.Tags[i].IsArray}
+	}
+	c.Fields = make(influx.Fields, len(r.Fields))
+	for i := range r.Fields {
+		c.Fields[i] = influx.Field{Key: strings.Clone(r.Fields[i].Key), NumValue: r.Fields[i].NumValue,
+			StrValue: strings.Clone(r.Fields[i].StrValue), Type: r.Fields[i].Type}
+	}
+	for i := range r.IndexOptions {
+		c.IndexOptions = append(c.IndexOptions, influx.IndexOption{Oid: r.IndexOptions[i].Oid,
+			IndexList: append([]uint16(nil), r.IndexOptions[i].IndexList...)})
+	}
+	return c
+}
+
+// VerifWalReplay opens dir as the WAL of a shard and runs the real replay
+// (restoreLogs → WAL.Replay → replayWalFile → replayPhysicRecord → unmarshalRows) with a
+// callback that mirrors shard.syncReplayWal / writeWalForLineProtocol: the "last rows"
+// marker is skipped, rows are consumed (here: deep-copied) and the row objects go back
+// to their pool.
+func VerifWalReplay(dir string, partitionNum int, parallel bool) (*VerifWalReplayResult, error) {
+	lock := ""
+	w := NewWAL(dir, &lock, 1, 0, true, parallel, partitionNum, 0)
+	w.restoreLogs()
+	res := &VerifWalReplayResult{}
+	var mu sync.Mutex
+	files, err := w.Replay(context.Background(),
+		func(binary []byte, rowsCtx *walRowsObjects, typ WalRecordType, _ LogReplay) error {
+			mu.Lock()
+			defer mu.Unlock()
+			if rowsCtx != nil && rowsCtx.isLastRows {
+				res.LastMarks++
+				return nil
+			}
+			switch typ {
+			case WriteWalLineProtocol:
+				for i := range rowsCtx.rows {
+					res.Rows = append(res.Rows, verifCloneRow(&rowsCtx.rows[i]))
+				}
+				res.Batches = append(res.Batches, len(rowsCtx.rows))
+				putWalRowsObjects(rowsCtx)
+				return nil
+			case WriteWalArrowFlight:
+				res.Binaries = append(res.Binaries, append([]byte(nil), binary...))
+				return nil
+			default:
+				return errors.New("unKnown write wal type")
+			}
+		})
+	res.Files = files
+	cerr := w.Close()
+	if err == nil {
+		err = cerr
+	}
+	return res, err
+}
+
+// VerifReplayWalBytes stores data as the only wal file (partition 0, file 1.wal) of a
+// fresh wal directory under dir and replays it with VerifWalReplay.
+func VerifReplayWalBytes(dir string, data []byte) (*VerifWalReplayResult, error) {
+	p := filepath.Join(dir, "0")
+	if err := os.MkdirAll(p, 0o750); err != nil {
+		return nil, err
+	}
+	if err := os.WriteFile(filepath.Join(p, "1."+WALFileSuffixes), data, 0o600); err != nil {
+		return nil, err
+	}
+	return VerifWalReplay(dir, 1, false)
+}
